@@ -109,7 +109,54 @@ def envOfJ (j : Json) : Env := fun n =>
   | .ok v => some (toVal v)
   | .error _ => none
 
-/-- verbs: py_rules (the rule table with Python renderings), py_eval (a rule's old/new under an environment) -/
+/-! statement-level rules: Python source of the blocks, and running them -/
+
+def pad (n : Nat) (l : String) : String := String.ofList (List.replicate (4 * n) ' ') ++ l
+
+mutual
+def renderStmt (ind : Nat) : Stmt → List String
+  | .pass => [pad ind "pass"]
+  | .assign x e => [pad ind s!"{x} = {render e}"]
+  | .assign2 x y e1 e2 => [pad ind s!"{x}, {y} = {render e1}, {render e2}"]
+  | .append x e => [pad ind s!"{x}.append({render e})"]
+  | .extend2 x e1 e2 => [pad ind s!"{x}.extend(({render e1}, {render e2}))"]
+  | .listComp x elt v it cond =>
+    let c := match cond with | some c => s!" if {render c}" | none => ""
+    [pad ind s!"{x} = [{render elt} for {v} in {render it}{c}]"]
+  | .ret none => [pad ind "return"]
+  | .ret (some e) => [pad ind s!"return {render e}"]
+  | .cont => [pad ind "continue"]
+  | .ifElse c t e =>
+    [pad ind s!"if {render c}:"] ++ renderBlock (ind + 1) t ++ (if e.isEmpty then [] else [pad ind "else:"] ++ renderBlock (ind + 1) e)
+  | .forIn v it b => [pad ind s!"for {v} in {render it}:"] ++ renderBlock (ind + 1) b
+  | .forEnum i v it b => [pad ind s!"for {i}, {v} in enumerate({render it}):"] ++ renderBlock (ind + 1) b
+def renderBlock (ind : Nat) : List Stmt → List String
+  | [] => [pad ind "pass"]
+  | [s] => renderStmt ind s
+  | s :: t :: rest => renderStmt ind s ++ renderBlock ind (t :: rest)
+end
+
+def nestLines : Nat → Nat → List Stmt → List String
+  | 0, ind, b => renderBlock ind b
+  | k + 1, ind, b => [pad ind "for _ in range(1):"] ++ nestLines k (ind + 1) b
+
+def sruleJ (r : SRule) (refuted : Bool) : Json := Json.mkObj [
+  ("code", r.code), ("label", r.label),
+  ("vars", Json.arr (r.vars.map (fun p => Json.arr #[Json.str p.1, optJ (fun t => Json.str (typeNameS t)) p.2])).toArray),
+  ("old", "\n".intercalate (nestLines r.nest 0 r.old)), ("new", "\n".intercalate (nestLines r.nest 0 r.new)),
+  ("advice", r.advice), ("ignore", Json.arr (r.ignore.map Json.str).toArray), ("refuted", refuted)]
+
+def allSRules : List (SRule × Bool) := srules.map (·, false) ++ refutedSRules.map (·, true)
+
+def flowJ (names : List String) : Flow → Json
+  | .next σ => Json.mkObj [("r", "next"), ("state", Json.mkObj (names.map (fun n => (n, optJ valJ (σ n)))))]
+  | .returned v σ => Json.mkObj [("r", "returned"), ("v", valJ v), ("state", Json.mkObj (names.map (fun n => (n, optJ valJ (σ n)))))]
+  | .continued _ => Json.mkObj [("r", "continued")]
+  | .raised => Json.mkObj [("r", "raised")]
+
+/-- verbs: py_rules (the rule table with Python renderings), py_eval (a rule's old/new under an environment),
+    py_srules (the statement rules), py_exec (a statement rule's old/new block run from an environment; `names` = the
+    bindings to report) -/
 def handleChecks (verb : String) (j : Json) : Option Json :=
   match verb with
   | "py_rules" => some (Json.arr (allRules.map (fun p => ruleJ p.1 p.2)).toArray)
@@ -121,6 +168,13 @@ def handleChecks (verb : String) (j : Json) : Option Json :=
       some (match eval (envOfJ (obj j "env")) e with
         | .ok v => Json.mkObj [("r", "ok"), ("v", valJ v), ("truthy", truthy v)]
         | .error _ => Json.mkObj [("r", "raised")])
+  | "py_srules" => some (Json.arr (allSRules.map (fun p => sruleJ p.1 p.2)).toArray)
+  | "py_exec" =>
+    match allSRules[nat j "srule"]? with
+    | none => some (Json.mkObj [("error", "no such rule")])
+    | some (r, _) =>
+      let b := if str j "which" == "new" then r.new else r.old
+      some (flowJ (strs j "names") (execBlock (envOfJ (obj j "env")) b))
   | _ => none
 
 end RefurbVerif.Wire
